@@ -373,7 +373,7 @@ func TestFamily(t *testing.T) {
 	for _, kind := range parentKinds {
 		history(r, o, kind, 0, corpusF7())
 	}
-	n := hx.N(240, 6000)
+	n := hx.N(240, 2400)
 	for i := 0; i < n; i++ {
 		history(r, o, parentKinds[i%len(parentKinds)], 6+r.Intn(10), nil)
 	}
